@@ -184,6 +184,22 @@ def is_attr(name):
     return lambda x: x[0] == "attr" and x[2] == name and is_parse(x[1])
 
 
+def _port_of_result(repo, fn, scheme, port):
+    """port (int or None) of <fn>('<scheme>://a.com[:port]/x', unsplit=False), the function interpreted end to end"""
+    from . import tables as TB
+    from urllib.parse import urlsplit
+    url = "%s//a.com%s/x" % (scheme + ":" if scheme else "", "" if port is None else ":%d" % port)
+    got = TB.call(repo, fn, fn, url, unsplit=False)
+    if isinstance(got, str):
+        if got.startswith("raises"):
+            raise Unknown("%s(%r) %s" % (fn, url, got))
+        netloc = urlsplit(got if "//" in got else "//" + got).netloc
+    else:
+        netloc = list(got)[1]
+    tail = netloc.rsplit("@", 1)[-1].rsplit(":", 1)
+    return int(tail[1]) if len(tail) == 2 and tail[1].isdigit() else None
+
+
 def port_drop_table(ctx, rule, fn, port_term, site, relative_as=None):
     """dropped(s, p) => p == default_port[s]; and the two default pairs are dropped.
     relative_as: the scheme a protocol-relative url (parsed scheme '') stands for in this function."""
@@ -208,8 +224,13 @@ def port_drop_table(ctx, rule, fn, port_term, site, relative_as=None):
             try:
                 v = eval_term(port_term, leaf_for(s, p))
             except Unknown as e:
-                ctx.undecided(rule, "%s: port sink not interpretable for (%s,%s): %s" % (fn, s, p, e))
-                return
+                # the port sink reads a table / helper the term evaluator does not follow: the whole function is
+                # interpreted on the url of that cell and the port is read off its result
+                try:
+                    v = _port_of_result(ctx.repo, fn, s, p)
+                except Unknown as e2:
+                    ctx.undecided(rule, "%s: port sink not interpretable for (%s,%s): %s; %s" % (fn, s, p, e, e2))
+                    return
             dropped = (v is None and p is not None)
             changed = (v is not None and v != p)
             ctx.ob(rule, "%s/port/(%s,%s)" % (fn, s, p), not changed and (not dropped or DEFAULT.get(s) == p),
